@@ -160,12 +160,25 @@ func (c01) Gen(r *simrt.Rand, idx int, tier string) *Case {
 		g.Prices = "tree"
 		g.MaxCom = 4
 	}
+	deep := valued && idx%20 == 7
+	if deep {
+		// quantities with 12-18 decimals (wei-precision): nothing may be asserted or closed on them
+		g.PAssert, g.PClose, g.PAccrual = 0, 0, 0
+	}
 	if idx%60 == 13 {
 		// a day with hundreds of bookings, several schedules
 		g.MinTxn, g.MaxTxn, g.BusyDay = 350, 600, true
 		g.PAccrual, g.PAssert = 0, 0.02
 	}
 	c.J = Gen(r, g)
+	if deep {
+		c.Note = "deep"
+		for i := range c.J.Dirs {
+			for k := range c.J.Dirs[i].Bookings {
+				c.J.Dirs[i].Bookings[k].Deep = fmt.Sprintf("%0*d", r.Range(5, 14), r.Intn(99999)+1)
+			}
+		}
+	}
 	c.L = RandLayout(r, c.J, 4)
 	c.Today = (anchors[r.Intn(len(anchors))] + Day(r.Range(0, 1200))).String()
 	// a third of the cases shorten accounts (-m with a level of at least 1) or move them to the
@@ -184,7 +197,11 @@ func (c01) Gen(r *simrt.Rand, idx int, tier string) *Case {
 
 func (c01) Eval(c *Case) (*Violation, bool) {
 	files := c.L.Files(c.J)
-	argv := append([]string{"balance", "--color=false", "--digits", "8"}, c.Args...)
+	digits := "8"
+	if c.Note == "deep" {
+		digits = "20" // quantities with up to 18 decimals: nothing may be rounded away
+	}
+	argv := append([]string{"balance", "--color=false", "--digits", digits}, c.Args...)
 	argv = append(argv, c.L.Main())
 	vac := true
 	for _, s := range c.Scheds {
